@@ -39,10 +39,15 @@ BlockXX(n1, n2, e) ==
       ints == IF n1 = 2 THEN bonds \o <<In("angles", <<1, 2, 3>>, <<"2", "150", "25">>)>> ELSE bonds
   IN MkBlock("XX", e, ats, ints)
 
-AllNames == <<"A", "B", "X1", "X2", "GLY", "ALA", "GLYC", "XALA">>
-LBond(ord, a, b, par) == [kind |-> "bond", ord |-> ord, rns |-> AllNames, a |-> a, b |-> b, sec |-> "bonds", par |-> par, xb |-> ""]
-LRemove(rns, a) == [kind |-> "remove", ord |-> "0", rns |-> rns, a |-> a, b |-> "", sec |-> "", par |-> <<>>, xb |-> ""]
-LRetype(rns, a, ty, q) == [kind |-> "retype", ord |-> "0", rns |-> rns, a |-> a, b |-> "", sec |-> "", par |-> <<ty, q>>, xb |-> ""]
+\* blocks whose [ atoms ] carry residue names other than the block name / the names of the residue-graph nodes
+RnBlock(b, nm) == [b EXCEPT !.atoms = TLCEval([a \in DOMAIN b.atoms |-> [b.atoms[a] EXCEPT !.rn = nm]])]
+RnXX(b) == [b EXCEPT !.atoms = TLCEval([a \in DOMAIN b.atoms |-> [b.atoms[a] EXCEPT !.rn = IF @ = "X1" THEN "R1" ELSE "R2"]])]
+AllNames == <<"A", "B", "X1", "X2", "GLY", "ALA", "GLYC", "XALA", "BX", "R1", "R2">>
+LBond(ord, a, b, par) == [kind |-> "bond", ord |-> ord, rns |-> AllNames, a |-> a, b |-> b, sec |-> "bonds", par |-> par, xb |-> "", ex |-> <<>>]
+LRemove(rns, a) == [kind |-> "remove", ord |-> "0", rns |-> rns, a |-> a, b |-> "", sec |-> "", par |-> <<>>, xb |-> "", ex |-> <<>>]
+LRetype(rns, a, ty, q) == [kind |-> "retype", ord |-> "0", rns |-> rns, a |-> a, b |-> "", sec |-> "", par |-> <<ty, q>>, xb |-> "", ex |-> <<>>]
+\* explicit link ([ molmeta ] by_atom_id true): a bond / constraint between the atoms with the written numbers i and j
+LExplicit(sec, i, j, par) == [kind |-> "explicit", ord |-> "0", rns |-> <<>>, a |-> "", b |-> "", sec |-> sec, par |-> par, xb |-> "", ex |-> <<i, j>>]
 LinkSet(v) == IF v = 0 THEN <<>>
               ELSE IF v = 1 THEN <<LBond("+", "c1", "c1", <<"1", "0.47", "1250">>)>>
               ELSE IF v = 2 THEN <<LBond(">", "c2", "c1", <<"1", "0.37", "7000">>)>>
@@ -72,9 +77,10 @@ Dom_Inv == (pc = "match") => DomOK(inp)
 \* force fields: block sizes x interaction variants x link sets
 FFsG == << MkFF(<<BlockA(1, 1, 1), BlockB(2, 1, 1), BlockXX(1, 1, 1)>>, LinkSet(1), <<>>),
            MkFF(<<BlockA(2, 2, 1), BlockB(3, 1, 1), BlockXX(2, 1, 1)>>, LinkSet(2), <<>>),
-           MkFF(<<BlockA(3, 1, 1), BlockB(1, 1, 1), BlockXX(1, 2, 1)>>, LinkSet(3), <<>>),
+           \* 3: the atoms of block B are called residue BX, the residues inside XX R1 / R2 (graph nodes: B, X1, X2)
+           MkFF(<<BlockA(3, 1, 1), RnBlock(BlockB(1, 1, 1), "BX"), RnXX(BlockXX(1, 2, 1))>>, LinkSet(3), <<>>),
            MkFF(<<BlockA(3, 2, 2), BlockB(3, 2, 2), BlockXX(2, 2, 2)>>, LinkSet(0), <<>>),
-           MkFF(<<BlockA(2, 1, 1), BlockB(2, 2, 1), BlockXX(2, 2, 1)>>, LinkSet(3), <<>>),
+           MkFF(<<BlockA(2, 1, 1), RnBlock(BlockB(2, 2, 1), "BX"), RnXX(BlockXX(2, 2, 1))>>, LinkSet(3), <<>>),
            MkFF(<<BlockA(1, 1, 3), BlockB(3, 2, 3), BlockXX(1, 1, 3)>>, LinkSet(2), <<>>) >>
 InputsG(ffs, ns) == GraphInputs(FFsG, ffs, ns, {1, 5}, {"A", "B", "X"})
 
@@ -104,7 +110,7 @@ BlockALA == MkBlock("ALA", 1, TLCEval([a \in 1..2 |-> At(PN[a], "P4", QB[a], MB[
 \* the atom names the terminal modifications target, so a modification that is applied to it shows
 NonProt(ff) == IF ff = 2 THEN "XALA" ELSE "GLYC"
 BlockBM(nm) == MkBlock(nm, 1, TLCEval([a \in 1..2 |-> At(PN[a], "TB", QB[a], MB[a], 1, 1, nm)]), <<In("bonds", <<1, 2>>, <<"1", "0.41", "1000">>)>>)
-LBondP == [kind |-> "bond", ord |-> "+", rns |-> AllNames, a |-> "CA", b |-> "N", sec |-> "bonds", par |-> <<"1", "0.35", "1250">>, xb |-> ""]
+LBondP == [kind |-> "bond", ord |-> "+", rns |-> AllNames, a |-> "CA", b |-> "N", sec |-> "bonds", par |-> <<"1", "0.35", "1250">>, xb |-> "", ex |-> <<>>]
 MAt(an, rep, ty, q) == [an |-> an, rep |-> rep, ty |-> ty, q |-> q]
 ModNter(withInter) == [name |-> "N-ter", atoms |-> <<MAt("N", TRUE, "Qd", "1.0"), MAt("CA", FALSE, "", "")>>,
                        inters |-> IF withInter THEN <<[sec |-> "bonds", a |-> "N", b |-> "CA", par |-> <<"1", "0.9", "900">>]>> ELSE <<>>]
